@@ -99,7 +99,7 @@ def _fresh_process_state(W):
 
 
 # ------------------------------------------------------------------------------------------- tables
-DOMAINS = {"trial_type": ["go", "stop", "rest"], "response": ["left", "right"], "stim": ["a.png", "b.png", "c.png"],
+DOMAINS = {"trial_type": ["go", "stop", "rest"], "response": ["left", "right", "3 o'clock"], "stim": ["a.png", "b.png", "c.png"],
            "code": ["1", "2", "3"]}
 
 
